@@ -7,11 +7,37 @@ NOTE = ('Coq 8.16.1 kernel + vm_compute; no axioms (Print Assumptions checked pe
         'regenerated gen/*.v and by the correspondence check (harness linked against the working tree vs model evaluated in Coq); '
         'solang-parser, regex, toml, clap, HashMap order, the OS are modelled/oracles, see DESIGN.md section 10')
 
+T_CORR = 'Coq proof (induction / closed forms over the complete pre-order) + differential correspondence model vs implementation + specification evaluated on implementation output'
 CLAIMED = {
     'C01': ('walk_exact: model of walk_node_for_targets = filter-by-kind of the type-derived complete pre-order, for every root '
             'and target set (induction over the generated mutual tree type); tie: regenerated gen/Pt.v + walk correspondence on '
             'slot catalogue / carriers / random programs', '7 C01',
             'Coq proof by mutual structural induction + differential correspondence model vs implementation'),
+    'C02': ('line_of_spec and corollaries: model of get_line_number = 1 + number of LF before the offset for every text and token-start '
+            'offset (< 2^31 lines); tie: exhaustive small-string digests + random texts, implementation vs model vs spec', '7 C02',
+            'Coq proof by induction over the text + exhaustive/random correspondence'),
+    'C05': ('closed forms of the 11 expression-level detectors over the complete pre-order: exact equality with the specification for 8, '
+            'canonical-subset-reported-subset-matching for address_zero, assign_update_array_value, shift_math; tie: location sets of '
+            'implementation = model on carriers x contexts + spec evaluated on implementation output', '7 C05, 8', T_CORR),
+    'C06': ('exact characterisation of payable_function, private_constant, private_vars/func_leading_underscore, constructor_order over '
+            'the declared structure (contracts, members) + locality theorems; tie as C05', '7 C06, 8', T_CORR),
+    'C07': ('exact characterisation of unsafe_erc20_operation, divide_before_multiply (inductive chain predicates), floating_pragma '
+            '(caret / pinned corollaries), unprotected_selfdestruct (reported-iff theorem); tie as C05', '7 C07, 8', T_CORR),
+    'C09': ('version scanner + i32 parsing extract the version a pragma names (all i32 triples, six operator spellings), first '
+            'pragma solidity wherever other pragmas stand, lexicographic gates for the four version-gated detectors, monotonicity; '
+            'tie: detector correspondence + version-string correspondence', '7 C09', T_CORR),
+    'C10': ('slots_greedy_partition (layout rule, any length), pack_only_if / pack_not_if_optimal / pack_if_both_sorts, '
+            'pack_storage_exact / pack_struct_exact; tie: exhaustive enumeration of size sequences by digest (length <= 4 quick, 5 thorough) '
+            '+ random sequences + programs', '7 C10',
+            'Coq proof (induction over sequences, permutation/sorting) + exhaustive digest correspondence'),
+    'C14': ('finite theorems over regenerated name tables (doc names accepted, case-insensitive, injective, defaults selectable, dispatch '
+            'total), option-resolution model (selection_exact, path precedence, unknown name fails early); tie: regenerated gen/Names.v + '
+            'str_to_* and real-binary runs', '7 C14',
+            'Coq proof by computation over regenerated tables (forallb lifted) + structural lemmas + binary correspondence'),
+    'C18': ('run_frame / run_overwrites / failed_run_writes_nothing / old_report_inert on an abstract file system + regenerated effect '
+            'inventory (exactly one write call site, no shared state); OS-level effects sampled by snapshot runs of the real binary '
+            '(partial for the runtime part)', '7 C18',
+            'Coq proof on an abstract file-system model + regenerated effect inventory + snapshot runs of the binary'),
 }
 NOT_YET = {}
 
